@@ -34,6 +34,7 @@ import (
 	"github.com/AdguardTeam/AdGuardHome/verifsim/dnsnode"
 	"github.com/AdguardTeam/AdGuardHome/verifsim/env"
 	"github.com/AdguardTeam/AdGuardHome/verifsim/kernel"
+	"github.com/AdguardTeam/AdGuardHome/verifsim/sched"
 	"github.com/miekg/dns"
 	"pgregory.net/rapid"
 )
@@ -62,10 +63,13 @@ type Req struct {
 
 // Op is one generated operation.
 type Op struct {
-	Kind string `json:"kind"` // req | burst | reconf
+	Kind string `json:"kind"` // req | burst | reconf | reconf_par
 	Reqs []Req  `json:"reqs,omitempty"`
 	// Order is the order in which the received requests of a burst are handled.
 	Order []int `json:"order,omitempty"`
+	// reconf_par: scheduler seed and preemption probability.
+	Seed uint64 `json:"seed,omitempty"`
+	Pct  int    `json:"pct,omitempty"`
 }
 
 // Scenario is one case.
@@ -363,6 +367,16 @@ func Gen(t *rapid.T, tier string) any {
 		switch {
 		case k == 0 && reconfProne && i > 0:
 			sc.Ops = append(sc.Ops, Op{Kind: "reconf"})
+		case k == 1 && reconfProne && i > 0:
+			// A reconfiguration while requests are being handled: the
+			// interleaving at the lock boundaries is the scheduler seed's.
+			op := Op{Kind: "reconf_par", Seed: rapid.Uint64().Draw(t, "par_seed"), Pct: rapid.SampledFrom([]int{20, 50, 80}).Draw(t, "par_pct")}
+			for j, n := 0, rapid.IntRange(1, 3).Draw(t, "par_reqs"); j < n; j++ {
+				rq := genReq(t, sc.ServerName)
+				rq.Fault = ""
+				op.Reqs = append(op.Reqs, rq)
+			}
+			sc.Ops = append(sc.Ops, op)
 		case k <= 5:
 			sc.Ops = append(sc.Ops, Op{Kind: "req", Reqs: []Req{genReq(t, sc.ServerName)}})
 		default:
@@ -709,6 +723,8 @@ type runner struct {
 	preReconf  map[string]bool
 	attributed map[string]bool
 	reconfs    int
+	// abandon: a deadlock was found; the parked tasks hold the node's locks.
+	abandon bool
 
 	logSeen, statSeen, upSeen int
 	logs                      map[string][]dnsnode.LoggedQuery
@@ -1030,6 +1046,55 @@ func (r *runner) apply(i int, op *Op) error {
 		c.Fault("reconfigure")
 		c.Eventf("op %d reconfigure", i)
 		return nil
+	case "reconf_par":
+		// The requests have been received (they have their request ids) when
+		// the reconfiguration starts; the reconfiguration and their handling
+		// run as concurrent tasks under the seeded cooperative scheduler.  A
+		// request in flight across a reconfiguration is not judged (the
+		// statement does not say what becomes of it); what it named counts as
+		// named before the reconfiguration, so the requests that follow must
+		// not inherit it.
+		fl := make([]*inflight, len(op.Reqs))
+		for j := range op.Reqs {
+			f, err := r.prepare(&op.Reqs[j])
+			if err != nil {
+				return err
+			}
+			fl[j] = f
+		}
+		for id := range r.attributed {
+			r.preReconf[id] = true
+		}
+		for id := range r.refIDs {
+			r.preReconf[id] = true
+		}
+		names := []string{"reconfigure"}
+		var reconfErr error
+		fns := []func(){func() { reconfErr = r.n.ReconfigureNoListen() }}
+		for _, f := range fl {
+			names = append(names, "request")
+			fns = append(fns, func() { f.rep = r.n.Handle(f.p) })
+		}
+		lat := r.up.Latency
+		r.up.Latency, r.up.OnExchange = 0, func() { sched.Yield() }
+		res := sched.Run(op.Seed, op.Pct, names, fns)
+		r.up.Latency, r.up.OnExchange = lat, nil
+		c.Probes["sched_steps"] += res.Steps
+		c.Probes["sched_switches"] += res.Switches
+		if res.Deadlock != "" {
+			r.abandon = true
+			return kernel.Violationf("deadlock: "+res.Deadlock, "op %d: a reconfiguration concurrent with %d requests, schedule seed %d: every task waits for a lock:\n%s", i, len(fl), op.Seed, res.Detail)
+		}
+		if reconfErr != nil {
+			return reconfErr
+		}
+		kernel.Wait()
+		r.reconfs++
+		c.Fault("reconfigure")
+		c.Fault("reconfigure_with_requests_in_flight")
+		r.collect()
+		c.Eventf("op %d reconfigure concurrent with %d requests (steps %d)", i, len(fl), res.Steps)
+		return nil
 	case "req":
 		f, err := r.prepare(&op.Reqs[0])
 		if err != nil {
@@ -1125,6 +1190,7 @@ var replayTolerates = func() map[string]bool {
 func Run(t *testing.T, scAny any, c *kernel.Ctx) error {
 	sc := scAny.(*Scenario)
 	dnsnode.InitProcess()
+	sched.Init()
 	dir, err := kernel.TempDir("c16")
 	if err != nil {
 		return err
@@ -1159,7 +1225,11 @@ func Run(t *testing.T, scAny any, c *kernel.Ctx) error {
 		if err != nil {
 			return err
 		}
-		defer n.Close()
+		defer func() {
+			if !r.abandon {
+				n.Close()
+			}
+		}()
 		r.n = n
 		kernel.Wait()
 		c.Eventf("node server_name=%q strict=%v filter_off=%d", sc.ServerName, sc.Strict, len(ids))
@@ -1199,8 +1269,8 @@ var Prop = &kernel.Property{
 		"a request is 'failed' when it is neither logged, counted nor forwarded and its reply, if any, carries an error code and no answer; SERVFAIL vs other codes is counted, not asserted",
 		"bursts stay far below the 1024-entry hand-off cache",
 	},
-	FaultKinds: []string{"upstream_error", "upstream_servfail", "upstream_slow", "burst_in_flight", "out_of_order_handling", "reconfigure"},
-	ProbeNames: []string{"id_attributed", "id_settings_applied", "id_from_sni", "id_from_sni_doh", "id_from_path", "id_from_host_header", "id_both_sources", "processed_without_id",
+	FaultKinds: []string{"upstream_error", "upstream_servfail", "upstream_slow", "burst_in_flight", "out_of_order_handling", "reconfigure", "reconfigure_with_requests_in_flight"},
+	ProbeNames: []string{"sched_steps", "sched_switches", "id_attributed", "id_settings_applied", "id_from_sni", "id_from_sni_doh", "id_from_path", "id_from_host_header", "id_both_sources", "processed_without_id",
 		"rejected", "rejected_servfail", "rejected_invalid_label", "rejected_extra_segments", "rejected_strict_foreign",
 		"open_configured_name_case", "open_deeper_subdomain", "open_empty_label_name", "open_noncanonical_path", "open_not_a_doh_path", "open_strict_empty_name", "open_strict_without_configured_name", "open_path_and_name_both_name_ids", "open_malformed_host_header", "open_point_processed",
 		"http_400_before_handler", "upstream_failed_unlogged", "burst_33_or_more"},
